@@ -90,6 +90,13 @@ func genRecCase(t *rapid.T) *recCase {
 		return pts
 	}
 	nWaited := rapid.IntRange(1, pt.Scale(2, 3)).Draw(t, "nWaited")
+	// a block rotation is always followed by a further waited phase: the datapoints of the next block
+	// are then in its WAL when the process is killed, and the recovery has a block to rebuild next to
+	// the closed one
+	rotate := rapid.IntRange(0, pt.Scale(7, 5)).Draw(t, "rotate") == 0
+	if rotate && nWaited < 2 {
+		nWaited = 2
+	}
 	for p := 0; p < nWaited; p++ {
 		ph := recPhase{Wait: true}
 		if p == 0 {
@@ -109,8 +116,8 @@ func genRecCase(t *rapid.T) *recCase {
 			PauseMs: rapid.SampledFrom([]int{0, 100, 300, 500, 700, 900}).Draw(t, "pause")})
 	}
 	cs.KillDelayMs = rapid.SampledFrom([]int{0, 0, 5, 50, 300, 700}).Draw(t, "killDelay")
-	if rapid.IntRange(0, pt.Scale(9, 5)).Draw(t, "rotate") == 0 {
-		cs.RotateAfter = rapid.IntRange(0, nWaited-1).Draw(t, "rotateAfter")
+	if rotate {
+		cs.RotateAfter = rapid.IntRange(0, nWaited-2).Draw(t, "rotateAfter")
 	}
 	cs.SecondCrash = rapid.IntRange(0, 2).Draw(t, "secondCrash") == 0
 	return cs
@@ -463,27 +470,35 @@ func checkRec(cs *recCase, o *pt.Obs) error {
 			if err := e.c.Call(&sut.Req{Op: "c10.blocklimit", Ints: map[string]int64{"bytes": 1}}, nil); err != nil {
 				return e.died("blocklimit", err)
 			}
-			deadline := time.Now().Add(25 * time.Second)
+			deadline := time.Now().Add(16 * time.Second) // the rotation timer fires every 10 s
+			observed := false
 			for {
 				done, err := e.rotated(want)
 				if err != nil {
 					return err
 				}
 				if done {
+					observed = true
 					break
 				}
 				if e.c.Dead() {
 					return gone("block rotation")
 				}
 				if time.Now().After(deadline) {
-					return pt.Inconclusivef("block rotation was not observed within 25 s")
+					break
 				}
 				time.Sleep(200 * time.Millisecond)
 			}
 			if err := e.c.Call(&sut.Req{Op: "c10.blocklimit", Ints: map[string]int64{"bytes": 100000000}}, nil); err != nil {
 				return e.died("blocklimit", err)
 			}
-			e.markDurable(want)
+			if observed {
+				e.markDurable(want)
+			} else {
+				// Not fatal and not a reason to drop the case: everything sent so far has been seen
+				// in the log and stays owed whether or not (and however) the block was closed.
+				o.Class("block_rotation_not_observed")
+			}
 		}
 	}
 	if cs.KillDelayMs > 0 {
